@@ -330,3 +330,8 @@ RULES = [
     Rule("C04.E12", lambda ctx: __import__("sa.mypyx", fromlist=["x"]).cross_check(ctx, [HELPER, GENERATE, f"{DS}.GPTDataset.from_config"], "C04.E12"), floor=1,
          doc="thorough: call graph over-approximates mypy's type-resolved edges on the generation closure", tier="thorough"),
 ]
+
+from sa import exits as _exits_ms  # noqa: E402
+
+RULES.append(Rule("C04.MS", _exits_ms.make_state_rule("C04", "C04.MS", _exits_ms.SCOPES.get("C04", [])), floor=1,
+                  doc="no hidden module-level state on the anchored path: results do not depend on the history of the process (E17)"))
